@@ -237,6 +237,14 @@ impl Recorder {
         for (k, v) in &self.notes {
             coverage[k] = v.clone();
         }
+        // libFuzzer campaigns run by harness/fuzz.sh ahead of the thorough tier
+        if std::env::var("VERIF_PARTIAL").is_err() {
+            if let Ok(t) = std::fs::read_to_string(verif_root().join("work").join(format!("fuzz-{}.json", self.property))) {
+                if let Ok(v) = serde_json::from_str::<Value>(&t) {
+                    coverage["fuzz_campaigns"] = v;
+                }
+            }
+        }
         json!({
             "property_id": self.property,
             "tier": self.tier.name(),
@@ -345,7 +353,7 @@ impl Recorder {
             self.evaluations,
             self.nontrivial.len() as u64 + self.extra_nontrivial,
             self.violations.len() as u64 + self.partial_violations,
-            self.known_hits.len(),
+            all_known.len(),
             self.start.elapsed().as_secs_f64()
         );
         code
